@@ -10,11 +10,11 @@ VARIABLES i, bad, reusedCount
 
 TLog == ndJsonDeserialize(TraceFile)
 
-\* worker record id -> class:  id = fmt*100 + sev*10 + shape
-FmtOf(id) == CASE (id \div 100) % 3 = 0 -> "logfmt" [] (id \div 100) % 3 = 1 -> "json" [] OTHER -> "color"
-ColOf(id) == LET sv == (id \div 10) % 10 IN
+\* worker record id -> class:  id = fmt*1000 + sev*100 + shape
+FmtOf(id) == CASE (id \div 1000) % 3 = 0 -> "logfmt" [] (id \div 1000) % 3 = 1 -> "json" [] OTHER -> "color"
+ColOf(id) == LET sv == (id \div 100) % 10 IN
              CASE sv = 4 -> "fg" [] sv = 5 -> "fgbg" [] sv = 6 -> "none" [] OTHER -> "fgbg"
-ClassOf(id) == [fmt |-> FmtOf(id), col |-> ColOf(id), ml |-> (id % 10 = 1), ga |-> (id % 10 \in {2, 6})]
+ClassOf(id) == [fmt |-> FmtOf(id), col |-> ColOf(id), ml |-> (id % 100 = 1), ga |-> (id % 100 \in {2, 6, 13})]
 
 RECURSIVE Replay(_, _)
 Replay(r, h) == IF h = <<>> THEN r ELSE Replay(After(r, ClassOf(Head(h))), Tail(h))
